@@ -73,3 +73,9 @@ pub mod c20_strings;
 pub mod c01_entropy;
 #[cfg(feature = "p_c02")]
 pub mod c02_compress;
+#[cfg(feature = "p_c10")]
+pub mod c10_vecs;
+#[cfg(feature = "p_c11")]
+pub mod c11_sorts;
+#[cfg(feature = "p_c12")]
+pub mod c12_suffix;
